@@ -615,10 +615,6 @@ func (propC05) Judge(sc *Scenario) *Verdict {
 		v.NotJudged = "declaration rejected"
 		return finish()
 	}
-	if firstParseBad != "" {
-		v.NotJudged = "first parse of a reused parser has an unconvertible source"
-		return finish()
-	}
 	if p.Shape == "ini-failparse-parse" {
 		for i := 0; i < parseIdx; i++ {
 			if o.Ops[i].Op == "parse" && (o.Ops[i].Err != "flags.Error" || o.Ops[i].ErrType != "unknown flag") {
@@ -628,11 +624,11 @@ func (propC05) Judge(sc *Scenario) *Verdict {
 			}
 		}
 	}
+	firstRejected := false
 	if p.Shape == "parse-parse" || p.Shape == "parse-delim-parse" {
 		for i := 0; i < parseIdx; i++ {
 			if o.Ops[i].Op == "parse" && o.Ops[i].Err != "" {
-				v.NotJudged = "first parse of a reused parser rejected"
-				return finish()
+				firstRejected = true
 			}
 		}
 	}
@@ -735,6 +731,18 @@ func (propC05) Judge(sc *Scenario) *Verdict {
 	}
 	if predictErr == "" && boundaryOpt != "" {
 		v.NotJudged = "winning source is the empty text for a non-string kind (conversion boundary)"
+		return finish()
+	}
+	// a reused parser whose first ParseArgs met an unconvertible source (or was
+	// rejected): what it left in the fields is not modelled - but if the judged
+	// ParseArgs itself has an unconvertible winning source, that must surface
+	// whatever happened before
+	if predictErr == "" && firstParseBad != "" {
+		v.NotJudged = "first parse of a reused parser has an unconvertible source"
+		return finish()
+	}
+	if predictErr == "" && firstRejected {
+		v.NotJudged = "first parse of a reused parser rejected"
 		return finish()
 	}
 	if predictErr != "" {
